@@ -203,6 +203,79 @@ theorem C13_short_program (fs : Files) (lines : List Str) (parsed : List Stmt)
     (∃ a, assemble fs lines = .ok a) ∨ assemble fs lines = .diag :=
   C13_no_include fs lines parsed hp hni
 
+/-! ### batch B2: the new branches (register validation, signed arithmetic, the 8-bit PCR range check)
+
+The invariant of the NoInt* chain (`back_ne_internal`, hence `assemble_internal_iff_expand`) was re-proved on the model
+after batch B2, so every new branch is covered by the general theorems above: the register checks of
+`translateSpecial` / `translateIndexed` / `translateExtIndirect` raise `operandType` (a diagnostic), the signed
+expression arithmetic (`Int.tdiv`, products and sums of negative numbers) goes through `numericOfStr` /
+`numericOfInt`, which have no internal outcome (a negative number of ANY magnitude is a value: `addrOffset_good` no
+longer bounds it, `fit_operand_width` rejects it later with a diagnostic), division by zero is `.error .other`
+(a diagnostic), and the range check of `fix_addresses` is a diagnostic.  The programs below exercise each of
+these branches; all were replayed on the repaired code with the same outcome. -/
+
+private def prog (ls : List String) : List Str := ls.map String.toList
+
+/-- statement images of an accepted program -/
+private def imagesAre (bs : List (Option Bytes)) (a : Assembly) : Bool := a.stmts.map stmtBytes == bs
+
+/-- **register validation is a diagnostic**: an instruction stacking its own pointer, an unknown register, an
+unknown index register (plain and indirect), `PCR` without an offset or with an accumulator offset -/
+theorem C13_b2_register_diag (fs : Files) :
+    assemble fs (prog [" PSHS S\n"]) = .diag ∧ assemble fs (prog [" PSHU U,A\n"]) = .diag ∧
+    assemble fs (prog [" PULS Q\n"]) = .diag ∧ assemble fs (prog [" LDA 1,Q\n"]) = .diag ∧
+    assemble fs (prog [" LDA ,W\n"]) = .diag ∧ assemble fs (prog [" LDA [1,Q]\n"]) = .diag ∧
+    assemble fs (prog [" LEAX ,PCR\n"]) = .diag ∧ assemble fs (prog [" LEAX A,PCR\n"]) = .diag ∧
+    assemble fs (prog [" LDA [D,PCR]\n"]) = .diag :=
+  ⟨diagProgram_sound (by decide +kernel) fs, diagProgram_sound (by decide +kernel) fs,
+   diagProgram_sound (by decide +kernel) fs, diagProgram_sound (by decide +kernel) fs,
+   diagProgram_sound (by decide +kernel) fs, diagProgram_sound (by decide +kernel) fs,
+   diagProgram_sound (by decide +kernel) fs, diagProgram_sound (by decide +kernel) fs,
+   diagProgram_sound (by decide +kernel) fs⟩
+
+/-- ... and what the checks let through: the OTHER stack pointer, `0,PCR` (an offset of 0 from the PC, not the
+no-offset form), a numeric `n,PCR` outside −128..127 in the 16-bit form -/
+theorem C13_b2_register_ok :
+    (∃ a, assemble [] (prog [" PSHS U,A\n"]) = .ok a ∧ imagesAre [some [0x34, 0x42]] a = true) ∧
+    (∃ a, assemble [] (prog [" LEAX 0,PCR\n", " LDA [0,PCR]\n"]) = .ok a ∧
+      imagesAre [some [0x30, 0x8C, 0x00], some [0xA6, 0x9C, 0x00]] a = true) ∧
+    (∃ a, assemble [] (prog [" LEAX 200,PCR\n", " LEAX -129,PCR\n"]) = .ok a ∧
+      imagesAre [some [0x30, 0x8D, 0x00, 0xC8], some [0x30, 0x8D, 0xFF, 0x7F]] a = true) :=
+  ⟨checkProgram_sound (by decide +kernel) [], checkProgram_sound (by decide +kernel) [],
+   checkProgram_sound (by decide +kernel) []⟩
+
+/-- **signed arithmetic ends in a diagnostic or an image**: division by zero (numbers, and a label by a number),
+a product `label * negative` too large for the field, a negative EQU in a one-byte field, ORG of a negative number,
+and the 8-bit PCR range check are diagnostics -/
+theorem C13_b2_signed_diag (fs : Files) :
+    assemble fs (prog ["N EQU 0\n", " LDX #5/N\n"]) = .diag ∧
+    assemble fs (prog ["N EQU 0\n", "L LDX #L/N\n"]) = .diag ∧
+    assemble fs (prog ["N EQU -300\n", " ORG $1000\n", "L LDX #L*N\n"]) = .diag ∧
+    assemble fs (prog ["N EQU -200\n", " FDB N\n", " FCB N\n"]) = .diag ∧
+    assemble fs (prog ["S EQU -5\n", " ORG S\n", " NOP\n"]) = .diag ∧
+    assemble fs (prog ["S LEAX T,PCR\n", " ORG $CB\n", "T NOP\n"]) = .diag :=
+  ⟨diagProgram_sound (by decide +kernel) fs, diagProgram_sound (by decide +kernel) fs,
+   diagProgram_sound (by decide +kernel) fs, diagProgram_sound (by decide +kernel) fs,
+   diagProgram_sound (by decide +kernel) fs, diagProgram_sound (by decide +kernel) fs⟩
+
+/-- ... and the accepted ones: `N/M`, `M/N` (truncation toward zero: `−7/2 = −3`, `2/−7 = 0`), `N*N`, `N−M` on numbers;
+`label / negative`, `label * negative` in a 16-bit field (two's complement); a negative value as an extended operand
+(never direct, even with `<`); `label * negative` as a PCR target (the magnitude 1228800 is reduced modulo 65536 by
+the distance computation — no internal error, whatever one thinks of the operand) -/
+theorem C13_b2_signed_ok :
+    (∃ a, assemble [] (prog ["N EQU -7\n", "M EQU 2\n", " LDX #N/M\n", " LDX #M/N\n", " LDX #N*N\n", " LDX #N-M\n"])
+        = .ok a ∧
+      imagesAre [some [], some [], some [0x8E, 0xFF, 0xFD], some [0x8E, 0x00, 0x00], some [0x8E, 0x00, 0x31],
+        some [0x8E, 0xFF, 0xF7]] a = true) ∧
+    (∃ a, assemble [] (prog ["N EQU -2\n", " ORG $100\n", "L LDX #L/N\n", " LDX #L*N\n"]) = .ok a ∧
+      imagesAre [some [], some [], some [0x8E, 0xFF, 0x80], some [0x8E, 0xFE, 0x00]] a = true) ∧
+    (∃ a, assemble [] (prog ["N EQU -5\n", " LDA N\n", " LDA <N\n"]) = .ok a ∧
+      imagesAre [some [], some [0xB6, 0xFF, 0xFB], some [0xB6, 0xFF, 0xFB]] a = true) ∧
+    (∃ a, assemble [] (prog ["N EQU -300\n", " ORG $1000\n", "L LEAX L*N,PCR\n"]) = .ok a ∧
+      imagesAre [some [], some [], some [0x30, 0x8D, 0xAF, 0xFC]] a = true) :=
+  ⟨checkProgram_sound (by decide +kernel) [], checkProgram_sound (by decide +kernel) [],
+   checkProgram_sound (by decide +kernel) [], checkProgram_sound (by decide +kernel) []⟩
+
 /-- What holds of C13.  (1)-(4): the PCR loop and the whole assembly never run out of fuel, and parsing fails
 only with a diagnostic.  (5): an internal error comes from the nesting budget of INCLUDE and from nothing else.
 (6): C13 itself whenever the INCLUDE expansion does not run out of that budget.
